@@ -43,10 +43,10 @@ INT_TYPES = {"char": (8, True), "signed char": (8, True), "unsigned char": (8, F
              "uint16_t": (16, False), "uint32_t": (32, False), "uint64_t": (64, False), "int32_t": (32, True), "int64_t": (64, True)}
 
 
-def preprocess(repo):
+def preprocess(repo, extra_defines=()):
     """-> (tokens from files under <repo>/wasi, set of all typedef names of the translation unit)"""
     src = os.path.join(repo, "wasi", "wasi.c")
-    p = subprocess.run(["gcc", "-E", "-std=gnu90", "-O0", "-w"] + CMAKE_DEFINES + [src], stdout=subprocess.PIPE,
+    p = subprocess.run(["gcc", "-E", "-std=gnu90", "-O0", "-w"] + CMAKE_DEFINES + list(extra_defines) + [src], stdout=subprocess.PIPE,
                        stderr=subprocess.PIPE, text=True)
     if p.returncode != 0:
         raise ExtractFail("wasi.c", "gcc -E failed: " + p.stderr[-400:])
